@@ -24,6 +24,7 @@ import Cte.Model.Damage
 import Cte.Model.Bdl
 import Cte.Model.Convert
 import Cte.Model.Placement
+import Cte.Model.PlacementWin
 import Cte.Model.Origins
 import Cte.Model.HulcAux
 import Cte.Model.BdlData
@@ -436,7 +437,26 @@ def opPlacement (req : J) : J :=
              ("corners", match PlaceIO.wallOf spaces w with
                 | some cs => J.arr (cs.map (fun c => J.arr [J.ofRat c.x 6, J.ofRat c.y 6, J.ofRat c.z 6]))
                 | none => J.null)]))),
-           ("shades", J.arr ((SkelIO.arr src "shades").filterMap (fun sh =>
+           ("shades", J.arr ((
+             -- the overhang of a window: from the written offsets and the pose the conversion gave its wall
+             let mwalls := match (req.get? "impl").bind (fun i => i.get? "model") with | some m => SkelIO.arr m "walls" | none => []
+             (SkelIO.arr src "windows").filterMap (fun w =>
+               match w.get? "overhang" with
+               | some (J.obj o) =>
+                 let oj := J.obj o
+                 match mwalls.find? (fun m => SkelIO.str m "name" == SkelIO.str w "wall") with
+                 | some mw =>
+                   let gj := (mw.get? "geometry").getD J.null
+                   match (gj.get? "position").map jnums with
+                   | some [px, py, pz] =>
+                     let tr := (gj.get? "trig").getD J.null
+                     let cs := Place.overhangCorners ⟨px, py, pz⟩ (PlaceIO.ang tr "az") (PlaceIO.ang tr "t") (PlaceIO.num w "x") (PlaceIO.num w "y")
+                       (PlaceIO.num w "h") (PlaceIO.num oj "a") (PlaceIO.num oj "b") (PlaceIO.num oj "depth") (PlaceIO.num oj "width") (PlaceIO.ang oj "trig")
+                     some (J.obj [("name", J.str (SkelIO.str w "name" ++ "_overhang")),
+                                  ("corners", J.arr (cs.map (fun c => J.arr [J.ofRat c.x 6, J.ofRat c.y 6, J.ofRat c.z 6])))])
+                   | _ => none
+                 | none => none
+               | _ => none)) ++ (SkelIO.arr src "shades").filterMap (fun sh =>
              match sh.get? "rect", sh.get? "trig" with
              | some (J.obj r), some tr =>
                let rj := J.obj r
